@@ -91,14 +91,14 @@ theorem runs_and {env : Env} {code A B : List Instr} {c : Ctx} {l : LEnv} {wa wb
     Runs env code (A ++ [.jfalse ((B.length : Int) + 2)] ++ B ++ [.bin .OP_AND]) c l
       [b2i ((!isU wa && wa != 0) && (!isU wb && wb != 0))] := by
   intro pc st mem its hc hP hlen
-  obtain ⟨m1, i1, s1, a1⟩ := ha pc st mem its hc.left.left.left hP hlen
+  obtain ⟨m1, e1, s1, a1⟩ := ha pc st mem its hc.left.left.left hP hlen
   have hj : code[pc + A.length]? = some (.jfalse ((B.length : Int) + 2)) := hc.left.left.right.head
   rw [len4]
   by_cases hk : (!isU wa && wa == 0) = true
   · -- jump taken: the left operand (0) is the result
     have hw : wa = 0 := by simp at hk; exact hk.2
     have hu : isU (0 : Int) = false := by decide
-    refine ⟨m1, i1, Steps.trans s1 (Steps.one (by simpa using hj) ?_), a1⟩
+    refine ⟨m1, e1, Steps.trans s1 (Steps.one (by simpa using hj) ?_), a1⟩
     subst hw
     simp only [step, List.singleton_append, hu, jump]
     simp only [Bool.not_false, bne_self_eq_false, Bool.and_false, Bool.false_and, b2i, beq_self_eq_true,
@@ -106,25 +106,25 @@ theorem runs_and {env : Env} {code A B : List Instr} {c : Ctx} {l : LEnv} {wa wb
     congr 2
     omega
   · have hk' : (!isU wa && wa == 0) = false := by simpa using hk
-    have s2 : Steps env code ⟨pc + A.length, [wa] ++ st, m1, i1⟩ ⟨pc + A.length + 1, [wa] ++ st, m1, i1⟩ := by
+    have s2 : Steps env code ⟨pc + A.length, [wa] ++ st, m1, its ++ e1⟩ ⟨pc + A.length + 1, [wa] ++ st, m1, its ++ e1⟩ := by
       apply Steps.one (by simpa using hj)
       simp only [step, List.singleton_append, hk', Bool.false_eq_true, if_false]
     have hcb : CodeAt code (pc + A.length + 1) B := by
       have := hc.left.right
       simpa [Nat.add_assoc] using this
-    obtain ⟨m3, i3, s3, a3⟩ := hb (pc + A.length + 1) ([wa] ++ st) m1 i1 hcb (hP.stable a1) (a1.2.trans hlen)
+    obtain ⟨m3, e3, s3, a3⟩ := hb (pc + A.length + 1) ([wa] ++ st) m1 (its ++ e1) hcb (hP.stable a1) (a1.2.trans hlen)
     have ho : code[pc + A.length + 1 + B.length]? = some (.bin .OP_AND) := by
       have := hc.right.head
       have e : pc + (A ++ [Instr.jfalse ((B.length : Int) + 2)] ++ B).length = pc + A.length + 1 + B.length := by
         simp only [List.length_append, List.length_cons, List.length_nil]; omega
       rwa [e] at this
-    have s4 : Steps env code ⟨pc + A.length + 1 + B.length, [wb] ++ ([wa] ++ st), m3, i3⟩
-        ⟨pc + (A.length + 1 + B.length + 1), [b2i ((!isU wa && wa != 0) && (!isU wb && wb != 0))] ++ st, m3, i3⟩ := by
+    have s4 : Steps env code ⟨pc + A.length + 1 + B.length, [wb] ++ ([wa] ++ st), m3, its ++ e1 ++ e3⟩
+        ⟨pc + (A.length + 1 + B.length + 1), [b2i ((!isU wa && wa != 0) && (!isU wb && wb != 0))] ++ st, m3, its ++ e1 ++ e3⟩ := by
       apply Steps.one (by simpa using ho)
       simp only [step, List.singleton_append, vm_and]
       congr 2
       omega
-    exact ⟨m3, i3, Steps.trans s1 (Steps.trans s2 (Steps.trans s3 s4)), a3.trans a1⟩
+    exact ⟨m3, e1 ++ e3, by simpa [List.append_assoc] using Steps.trans s1 (Steps.trans s2 (Steps.trans s3 s4)), a3.trans a1⟩
 
 theorem runs_or {env : Env} {code A B : List Instr} {c : Ctx} {l : LEnv} {wa wb : Int}
     (ha : Runs env code A c l [wa]) (hb : Runs env code B c l [wb])
@@ -132,13 +132,13 @@ theorem runs_or {env : Env} {code A B : List Instr} {c : Ctx} {l : LEnv} {wa wb 
     Runs env code (A ++ [.jtrue ((B.length : Int) + 2)] ++ B ++ [.bin .OP_OR]) c l
       [b2i ((!isU wa && wa != 0) || (!isU wb && wb != 0))] := by
   intro pc st mem its hc hP hlen
-  obtain ⟨m1, i1, s1, a1⟩ := ha pc st mem its hc.left.left.left hP hlen
+  obtain ⟨m1, e1, s1, a1⟩ := ha pc st mem its hc.left.left.left hP hlen
   have hj : code[pc + A.length]? = some (.jtrue ((B.length : Int) + 2)) := hc.left.left.right.head
   rw [len4]
   by_cases hk : (!isU wa && wa != 0) = true
   · have hw : wa = 1 := h1 hk
     have hu : isU (1 : Int) = false := by decide
-    refine ⟨m1, i1, Steps.trans s1 (Steps.one (by simpa using hj) ?_), a1⟩
+    refine ⟨m1, e1, Steps.trans s1 (Steps.one (by simpa using hj) ?_), a1⟩
     subst hw
     simp only [step, List.singleton_append, hu, jump]
     simp only [Bool.not_false, b2i, Bool.true_and, Bool.true_or, if_true, bne_iff_ne, ne_eq, Int.reduceEq,
@@ -146,25 +146,25 @@ theorem runs_or {env : Env} {code A B : List Instr} {c : Ctx} {l : LEnv} {wa wb 
     congr 2
     omega
   · have hk' : (!isU wa && wa != 0) = false := by simpa using hk
-    have s2 : Steps env code ⟨pc + A.length, [wa] ++ st, m1, i1⟩ ⟨pc + A.length + 1, [wa] ++ st, m1, i1⟩ := by
+    have s2 : Steps env code ⟨pc + A.length, [wa] ++ st, m1, its ++ e1⟩ ⟨pc + A.length + 1, [wa] ++ st, m1, its ++ e1⟩ := by
       apply Steps.one (by simpa using hj)
       simp only [step, List.singleton_append, hk', Bool.false_eq_true, if_false]
     have hcb : CodeAt code (pc + A.length + 1) B := by
       have := hc.left.right
       simpa [Nat.add_assoc] using this
-    obtain ⟨m3, i3, s3, a3⟩ := hb (pc + A.length + 1) ([wa] ++ st) m1 i1 hcb (hP.stable a1) (a1.2.trans hlen)
+    obtain ⟨m3, e3, s3, a3⟩ := hb (pc + A.length + 1) ([wa] ++ st) m1 (its ++ e1) hcb (hP.stable a1) (a1.2.trans hlen)
     have ho : code[pc + A.length + 1 + B.length]? = some (.bin .OP_OR) := by
       have := hc.right.head
       have e : pc + (A ++ [Instr.jtrue ((B.length : Int) + 2)] ++ B).length = pc + A.length + 1 + B.length := by
         simp only [List.length_append, List.length_cons, List.length_nil]; omega
       rwa [e] at this
-    have s4 : Steps env code ⟨pc + A.length + 1 + B.length, [wb] ++ ([wa] ++ st), m3, i3⟩
-        ⟨pc + (A.length + 1 + B.length + 1), [b2i ((!isU wa && wa != 0) || (!isU wb && wb != 0))] ++ st, m3, i3⟩ := by
+    have s4 : Steps env code ⟨pc + A.length + 1 + B.length, [wb] ++ ([wa] ++ st), m3, its ++ e1 ++ e3⟩
+        ⟨pc + (A.length + 1 + B.length + 1), [b2i ((!isU wa && wa != 0) || (!isU wb && wb != 0))] ++ st, m3, its ++ e1 ++ e3⟩ := by
       apply Steps.one (by simpa using ho)
       simp only [step, List.singleton_append, vm_or]
       congr 2
       omega
-    exact ⟨m3, i3, Steps.trans s1 (Steps.trans s2 (Steps.trans s3 s4)), a3.trans a1⟩
+    exact ⟨m3, e1 ++ e3, by simpa [List.append_assoc] using Steps.trans s1 (Steps.trans s2 (Steps.trans s3 s4)), a3.trans a1⟩
 
 theorem boolWord_one (blocks : List (Nat × Bytes)) (t : Ty) (v : Val) (h : ValOk t v) (hb : BoolWord v)
     (hk : (!isU (boolWord blocks t (toVm v)) && boolWord blocks t (toVm v) != 0) = true) :
